@@ -7,7 +7,7 @@ mkdir -p .cache evidence replays
 python3 translator/extract.py
 (cd lean && lake build)
 [ -f harness/Cargo.lock ] || cp /repo/Cargo.lock harness/Cargo.lock
-(cd harness && cargo build --offline --quiet)
+(cd harness && cargo build --offline --quiet --bins)
 python3 - <<'PY'
 import sys
 sys.path.insert(0, "lib")
